@@ -158,3 +158,24 @@ Section C15algebra.
 End C15algebra.
 Print Assumptions C15_central_from_raw.
 Print Assumptions C15_central_moment_symmetric.
+
+(* ------------------------------------------------------------------------------------------------
+   Stated about the translated source on ANY piecewise-constant demography (analysis/SourceLinear.v): the mean of
+   SumReward([r_1, .., r_m]) is the sum of the means of the r_i - one route (one reward object) against m routes. *)
+From PG Require Import base.Ops base.OpsR model.Loop model.StateSpace model.Rewards analysis.Rstruct analysis.MExp analysis.Denote
+                       gen.NpLoops gen.RewardsGen proofs.GenRewardsEquiv analysis.SourceLinear.
+Local Notation Q0 := (QArith_base.Qmake BinNums.Z0 BinNums.xH).
+Theorem C15_source_sum_reward_mean_is_sum_of_means :
+  forall (expm : seq (seq R) -> seq (seq R)),
+    (forall n A, wf n n A -> wf n n (expm A) /\ mx_of n n (expm A) = mexp (mx_of n n A)) ->
+  forall (regf : seq (seq R) -> R) (n : nat) (Ss : seq (QArith_base.Q * seq (seq R))) (Slast : seq (seq R)) (alpha : seq R)
+         (ts : seq QArith_base.Q),
+    regf (List.hd (None, Slast) (all_epochs Ss Slast)).2 <> 0 ->
+    List.Forall (fun x : QArith_base.Q * seq (seq R) => wf n n x.2) Ss -> wf n n Slast ->
+    epochs_wf (seq (seq R)) Q0 Ss -> List.Forall (fun t => QArith_base.Qle Q0 t) ts ->
+  forall (nn nl : nat) (rs : seq reward) (sts : seq state),
+    size sts = n -> all (reward_ok nn) rs -> List.Forall (fun s => n_loci s = nl) sts ->
+    acc1 expm regf Ss Slast alpha ts [seq gen_reward_get OpsR nn nl (RSum rs) s | s <- sts]
+    = SourceLinear.vsum (size ts) [seq acc1 expm regf Ss Slast alpha ts [seq gen_reward_get OpsR nn nl r s | s <- sts] | r <- rs].
+Proof. move=> expm es regf n Ss Slast alpha ts; exact: source_sum_reward_mean. Qed.
+Print Assumptions C15_source_sum_reward_mean_is_sum_of_means.
